@@ -1,5 +1,6 @@
 """C01 -- every job resolves exactly once, with its own outcome.  Pool family: theorems over Model/Pool.v (Props/C01.v), tied to
 billiard/pool.py by differential correspondence on fake-process histories."""
+import json
 from vlib import core
 from props import poolcommon as pc
 
@@ -20,8 +21,36 @@ def run(res):
         n = max(n, 1500)      # failing-input search on the implementation
     pc.pool_check(res, 'C01', n, focus=FOCUS)
     pc.closed_check(res, 'C01', 120 if res.tier == 'quick' else 2000)
+    set_race_probe(res)
     pc.real_scenarios(res, 'C01', [dict(kind='closed_system', n=2, jobs=12), dict(kind='closed_system', n=3, jobs=7, putlocks=False)] if res.tier == 'quick' else [dict(kind='closed_system', n=n, jobs=j, putlocks=pl) for n in (1, 2, 4) for j in (0, 1, 9, 40) for pl in (True, False)])
     res.assumptions += pc_assumptions()
+
+
+def set_race_probe(res):
+    """two pool threads inside ApplyResult._set for the same job (the worker's result and a
+    pool-made failure): the second arrives while the first is inside its critical section
+    (forced through the hook the first one calls under the job's mutex).  First outcome kept,
+    exactly one callback, once."""
+    cases = [dict(first=a, second=b, hold_s=h) for a in ('value', 'failure') for b in ('value', 'failure') for h in (0.05, 0.2)]
+    outs = core.run_driver('set_race_driver.py', cases, timeout=120)
+    for c, o in zip(cases, outs):
+        want_cb = 'callback' if c['first'] == 'value' else 'error_callback'
+        want_final = ['value', 41] if c['first'] == 'value' else ['failure', 'TimeLimitExceeded']
+        bad = None
+        if o['hung']:
+            bad = ('C01:concurrent-set-hangs', 'a _set call did not return')
+        elif not o['entered']:
+            res.broken.append(dict(kind='harness', name='set_race_driver: the first _set never reached its hook', detail=json.dumps(o)))
+        elif [x[0] for x in o['calls']] != [want_cb]:
+            bad = ('C01:callbacks-fired-twice', 'callbacks run: %s' % o['calls'])
+        elif o['final'] != want_final:
+            bad = ('C01:outcome-changed', 'final outcome %s, first outcome was %s' % (o['final'], want_final))
+        if bad:
+            res.alarms.append(dict(signature=bad[0],
+                                   what='two threads in ApplyResult._set for one job (first: %s, second: %s arriving while the first holds the job\'s mutex): %s'
+                                        % (c['first'], c['second'], bad[1]),
+                                   replay=dict(kind='set-race', case=c, observed=o)))
+    res.add_cov(set_race_probes=len(cases))
 
 
 def pc_assumptions():
@@ -33,4 +62,12 @@ def pc_assumptions():
 
 
 def replay(path):
+    d = json.load(open(path))
+    rep = d.get('replay') or {}
+    if rep.get('kind') == 'set-race':
+        out = core.run_driver('set_race_driver.py', [rep['case']], timeout=60)[0]
+        print('case:', json.dumps(rep['case']))
+        print('implementation now:', json.dumps(out))
+        want = 'callback' if rep['case']['first'] == 'value' else 'error_callback'
+        return 0 if [x[0] for x in out['calls']] == [want] and not out['hung'] else 1
     return pc.pool_replay(path)
